@@ -98,7 +98,9 @@ class Bar(object):
             notes = NoteContainer(notes)
         elif isinstance(notes, list):
             notes = NoteContainer(notes)
-        if self.current_beat + 1.0 / duration <= self.length or self.length == 0.0:
+        # current_beat is a float sum: allow for its rounding error when the
+        # note fills the bar exactly (e.g. the 20th quintuplet sixteenth in 4/4)
+        if self.current_beat + 1.0 / duration <= self.length + 1e-9 or self.length == 0.0:
             self.bar.append([self.current_beat, duration, notes])
             self.current_beat += 1.0 / duration
             return True
